@@ -13,9 +13,10 @@ import (
 func init() { checks["C09"] = checkC09 }
 
 type c09Input struct {
-	Kind   string  `json:"kind"` // writer | reader
-	Writer *wInput `json:"writer,omitempty"`
-	Reader *rInput `json:"reader,omitempty"`
+	Kind   string        `json:"kind"` // writer | reader
+	Writer *wInput       `json:"writer,omitempty"`
+	Reader *rInput       `json:"reader,omitempty"`
+	Hist   *c09HistInput `json:"hist,omitempty"` // reader history vs the operational fault model (c09_reader_model.go)
 }
 
 // wErrorOracle: after a failed underlying write, Close reports an error; once an API call has reported the
@@ -186,6 +187,12 @@ func checkC09(c *ctx) {
 			var rimpl []string
 			rRunAndJudge(c, *in.Reader, rd, &rimpl)
 			rd.compare(res, "c09.read", rimpl)
+			res.eval("replay", true)
+		case in.Hist != nil:
+			rd := c.drv()
+			var rimpl []string
+			c09HistRun(c, *in.Hist, rd, &rimpl)
+			rd.compare(res, "c09.hist", rimpl)
 			res.eval("replay", true)
 		}
 		return
